@@ -1,1 +1,5 @@
+pub mod common;
+pub mod compare;
+pub mod ext;
 pub mod nodelist;
+pub mod slices;
